@@ -155,6 +155,13 @@ Proof.
   rewrite nth_map_seq by lia. f_equal. lia.
 Qed.
 
+Definition allbitsb (x : list Z) : bool := forallb (fun b => (b =? 0) || (b =? 1))%bool x.
+Lemma allbitsb_correct x : allbitsb x = true -> allbits x.
+Proof.
+  unfold allbitsb. intros H. apply Forall_forall. intros b Hb.
+  rewrite forallb_forall in H. specialize (H b Hb). unfold isbit. lia.
+Qed.
+
 Lemma isbit_cases b : isbit b -> b = 0 \/ b = 1. Proof. auto. Qed.
 
 Lemma allbits_nth x k : allbits x -> isbit (nth k x 0).
@@ -488,4 +495,277 @@ Corollary add_bits_is_bits_of x y :
 Proof.
   intros Hlen Hx Hy. destruct (add_bits_correct x y Hlen Hx Hy) as (V & B & Ln).
   rewrite <- Ln. apply bits_unique; [exact B|]. rewrite Ln. exact V.
+Qed.
+
+(* ------------------------------------------------------------------------------------- *)
+(** ** to_bits *)
+
+Lemma pow2_pos n : 0 < 2 ^ Z.of_nat n.
+Proof. apply Z.pow_pos_nonneg; lia. Qed.
+
+(** a multiple of 2^f has f zero bits followed by the bits of the quotient *)
+Lemma bits_of_shift f : forall A m, A mod 2 ^ Z.of_nat f = 0 ->
+  bits_of A (f + m) = repeat 0 f ++ bits_of (A / 2 ^ Z.of_nat f) m.
+Proof.
+  induction f as [|f IH]; intros A m H.
+  - cbn [Nat.add repeat app]. change (Z.of_nat 0) with 0. rewrite Z.pow_0_r, Z.div_1_r. reflexivity.
+  - rewrite Nat2Z.inj_succ, Z.pow_succ_r in * by lia.
+    pose proof (pow2_pos f) as Hp.
+    rewrite Z.rem_mul_r in H by lia.
+    assert (H0 : A mod 2 = 0) by lia.
+    assert (H1 : (A / 2) mod 2 ^ Z.of_nat f = 0) by lia.
+    cbn [Nat.add bits_of repeat app]. rewrite H0. f_equal.
+    rewrite IH by exact H1. rewrite Z.div_div by lia. reflexivity.
+Qed.
+
+Lemma bits_of_zero_low f : forall A l, A mod 2 ^ Z.of_nat f = 0 -> (l <= f)%nat -> bits_of A l = repeat 0 l.
+Proof.
+  induction f as [|f IH]; intros A l H Hl.
+  - assert (l = O) by lia. subst l. reflexivity.
+  - destruct l as [|l]; [reflexivity|].
+    rewrite Nat2Z.inj_succ, Z.pow_succ_r in H by lia.
+    pose proof (pow2_pos f) as Hp.
+    rewrite Z.rem_mul_r in H by lia.
+    cbn [bits_of repeat]. f_equal; [lia|]. apply IH; lia.
+Qed.
+
+(** the masked-opening core: for EVERY tape (rbits, rdivl) that does not wrap around the field *)
+Lemma to_bits_core p L A' l' rbits rdivl :
+  (l' <= L)%nat -> length rbits = l' -> allbits rbits ->
+  0 <= A' + (2 ^ Z.of_nat L + rdivl * 2 ^ Z.of_nat l' - value rbits) < p ->
+  add_bits rbits
+    (map (bit_at (((A' + (2 ^ Z.of_nat L + rdivl * 2 ^ Z.of_nat l' - from_bits rbits)) mod p) mod 2 ^ Z.of_nat l'))
+         (seq 0 l'))
+  = bits_of A' l'.
+Proof.
+  intros HlL Hlen Hb Hwrap.
+  rewrite from_bits_value, map_bit_at.
+  rewrite (Z.mod_small _ p) by exact Hwrap.
+  set (M := 2 ^ Z.of_nat l') in *.
+  assert (HM : 0 < M) by apply pow2_pos.
+  assert (HL : 2 ^ Z.of_nat L = M * 2 ^ Z.of_nat (L - l')).
+  { unfold M. rewrite <- Z.pow_add_r by lia. f_equal. lia. }
+  rewrite add_bits_is_bits_of.
+  - rewrite Hlen. rewrite value_bits_of. fold M. rewrite Z.mod_mod by lia.
+    rewrite <- bits_of_mod. fold M. rewrite Zplus_mod_idemp_r.
+    rewrite <- (bits_of_mod A'). fold M. f_equal.
+    rewrite HL.
+    replace (value rbits + (A' + (M * 2 ^ Z.of_nat (L - l') + rdivl * M - value rbits)))
+      with (A' + (2 ^ Z.of_nat (L - l') + rdivl) * M) by ring.
+    apply Z_mod_plus_full.
+  - rewrite bits_of_length. symmetry. exact Hlen.
+  - exact Hb.
+  - apply bits_of_allbits.
+Qed.
+
+Definition rshift_f (f : nat) (integral : bool) : bool := (negb (f =? 0)%nat && integral)%bool.
+
+(** ** to_bits on secure integers / fixed-point numbers returns the two's complement expansion
+    of the integer A carried by a (A mod 2^l), for every l <= L (l - f <= L on the integral
+    shortcut) and every tape satisfying the no-wrap condition of the masked opening. *)
+Theorem to_bits_num_correct p L f integral A l rbits rdivl :
+  let rs := rshift_f f integral in
+  let l' := if rs then (l - f)%nat else l in
+  let A' := if rs then A / 2 ^ Z.of_nat f else A in
+  (rs = true -> A mod 2 ^ Z.of_nat f = 0) ->
+  ((rs && (l <=? f)%nat)%bool = true \/
+   ((l' <= L)%nat /\ length rbits = l' /\ allbits rbits /\
+    0 <= A' + (2 ^ Z.of_nat L + rdivl * 2 ^ Z.of_nat l' - value rbits) < p)) ->
+  to_bits_num p L f integral A l rbits rdivl = bits_of A l.
+Proof.
+  intros rs l' A' Hint H. unfold to_bits_num. fold (rshift_f f integral). fold rs.
+  destruct (rs && (l <=? f)%nat)%bool eqn:Eearly.
+  - apply andb_prop in Eearly. destruct Eearly as [Ers Elf]. apply Nat.leb_le in Elf.
+    symmetry. apply bits_of_zero_low with (f := f); auto.
+  - destruct H as [H|H]; [discriminate|]. destruct H as (HlL & Hlen & Hb & Hwrap).
+    destruct rs eqn:Ers; subst l' A'.
+    + cbn [andb] in Eearly. apply Nat.leb_gt in Eearly.
+      rewrite to_bits_core by assumption.
+      replace l with (f + (l - f))%nat at 2 by lia.
+      symmetry. apply bits_of_shift. auto.
+    + rewrite to_bits_core by assumption. reflexivity.
+Qed.
+
+(** secure integers (f = 0): the plain statement *)
+Corollary to_bits_int_correct p L a l rbits rdivl :
+  (l <= L)%nat -> length rbits = l -> allbits rbits ->
+  0 <= a + (2 ^ Z.of_nat L + rdivl * 2 ^ Z.of_nat l - value rbits) < p ->
+  to_bits_num p L 0 false a l rbits rdivl = bits_of a l.
+Proof.
+  intros. apply to_bits_num_correct; cbn; [discriminate|]. right. auto.
+Qed.
+
+(** the no-wrap condition follows from the ranges of the code: a in the L-bit signed range,
+    r_divl >= 1 (or l < L), r_divl < 2^(L+k-l), and a field of more than L+k+1 bits *)
+Lemma nowrap_from_ranges p L k a l rbits rdivl :
+  (l <= L)%nat -> (1 <= k)%nat -> length rbits = l -> allbits rbits ->
+  - 2 ^ Z.of_nat L <= 2 * a < 2 ^ Z.of_nat L ->
+  0 <= rdivl < 2 ^ Z.of_nat (L + k - l) -> (1 <= rdivl \/ (l < L)%nat) ->
+  2 ^ Z.of_nat (L + k + 1) <= p ->
+  0 <= a + (2 ^ Z.of_nat L + rdivl * 2 ^ Z.of_nat l - value rbits) < p.
+Proof.
+  intros HlL Hk Hlen Hb Ha Hr Hr1 Hp.
+  assert (E5 : 2 * 2 ^ Z.of_nat L <= 2 ^ Z.of_nat (L + k)).
+  { rewrite <- Z.pow_succ_r by lia. apply Z.pow_le_mono_r; lia. }
+  pose proof (value_bounds rbits Hb) as Vb. rewrite Hlen in Vb.
+  pose proof (pow2_pos l) as Pl. pose proof (pow2_pos L) as PL.
+  assert (E1 : 2 ^ Z.of_nat (L + k - l) * 2 ^ Z.of_nat l = 2 ^ Z.of_nat (L + k)).
+  { rewrite <- Z.pow_add_r by lia. f_equal. lia. }
+  assert (E2 : 2 ^ Z.of_nat (L + k + 1) = 2 * 2 ^ Z.of_nat (L + k)).
+  { rewrite <- Z.pow_succ_r by lia. f_equal. lia. }
+  assert (E3 : 2 ^ Z.of_nat L <= 2 ^ Z.of_nat (L + k)) by (apply Z.pow_le_mono_r; lia).
+  assert (E4 : 2 ^ Z.of_nat l <= 2 ^ Z.of_nat L) by (apply Z.pow_le_mono_r; lia).
+  split.
+  - destruct Hr1 as [Hr1|Hr1].
+    + assert (2 ^ Z.of_nat l <= rdivl * 2 ^ Z.of_nat l) by nia. lia.
+    + assert (2 * 2 ^ Z.of_nat l <= 2 ^ Z.of_nat L).
+      { rewrite <- Z.pow_succ_r by lia. apply Z.pow_le_mono_r; lia. }
+      assert (0 <= rdivl * 2 ^ Z.of_nat l) by nia. lia.
+  - assert ((rdivl + 1) * 2 ^ Z.of_nat l <= 2 ^ Z.of_nat (L + k - l) * 2 ^ Z.of_nat l)
+      by (apply Z.mul_le_mono_nonneg_r; lia).
+    lia.
+Qed.
+
+(** the statistical-error event: r_divl = 0, l = L and a + 2^L < r_modl wraps around the field
+    and gives wrong bits (probability <= 2^-k over the tape) *)
+Lemma to_bits_wrap_witness :
+  to_bits_num 1099511627563 8 0 false (-128) 8 [1;1;1;1;1;1;1;1] 0 <> bits_of (-128) 8.
+Proof. vm_compute. discriminate. Qed.
+
+(** l > bit_length on a nonintegral fixed-point number: admitted by the code's assert
+    (l <= bit_length + frac_length), no wrap, yet the result is not the expansion of A *)
+Lemma to_bits_l_gt_bit_length_refuted :
+  exists p L f A l rbits rdivl,
+    (l <= L + f)%nat /\ length rbits = l /\ allbits rbits /\
+    - 2 ^ Z.of_nat L <= 2 * A < 2 ^ Z.of_nat L /\
+    0 <= A + (2 ^ Z.of_nat L + rdivl * 2 ^ Z.of_nat l - value rbits) < p /\
+    to_bits_num p L f false A l rbits rdivl <> bits_of A l.
+Proof.
+  exists 17592186044423, 8%nat, 4%nat, 44, 12%nat, [1;0;1;1;0;1;1;0;0;1;0;1], 12345.
+  split; [cbn; lia|]. split; [reflexivity|].
+  split; [apply allbitsb_correct; reflexivity|].
+  split; [vm_compute; split; [discriminate|reflexivity]|].
+  split; [vm_compute; split; [discriminate|reflexivity]|].
+  vm_compute. discriminate.
+Qed.
+
+(** prime fields: via SecInt(1 + bit_length) *)
+Corollary to_bits_gfp_correct p' bl a l rbits rdivl :
+  (l <= S bl)%nat -> length rbits = l -> allbits rbits ->
+  0 <= a + (2 ^ Z.of_nat (S bl) + rdivl * 2 ^ Z.of_nat l - value rbits) < p' ->
+  to_bits_gfp p' bl a l rbits rdivl = bits_of a l.
+Proof. intros. unfold to_bits_gfp. apply to_bits_int_correct; assumption. Qed.
+
+Lemma bitdiv_testbit c i : (c / 2 ^ Z.of_nat i) mod 2 = Z.b2z (Z.testbit c (Z.of_nat i)).
+Proof. symmetry. apply Z.testbit_spec'. lia. Qed.
+
+Lemma nth_allbits_testbit x i : allbits x -> (i < length x)%nat ->
+  nth i x 0 = Z.b2z (Z.testbit (value x) (Z.of_nat i)).
+Proof.
+  intros Hb Hi. rewrite <- bitdiv_testbit, <- nth_bits_of with (l := length x) by exact Hi.
+  rewrite bits_of_value by exact Hb. reflexivity.
+Qed.
+
+(** binary fields: for every tape the result is the binary expansion of (the representation of) a *)
+Theorem to_bits_gf2_correct a l rbits :
+  length rbits = l -> allbits rbits -> to_bits_gf2 a l rbits = bits_of a l.
+Proof.
+  intros Hlen Hb. unfold to_bits_gf2.
+  apply nth_ext with (d := 0) (d' := 0).
+  - rewrite map_length, seq_length, bits_of_length. reflexivity.
+  - intros i Hi. rewrite map_length, seq_length in Hi.
+    rewrite nth_map_seq by exact Hi. cbn [Nat.add].
+    rewrite nth_bits_of by exact Hi. rewrite bit_at_spec, from_bits_value.
+    rewrite nth_allbits_testbit by (try exact Hb; lia).
+    rewrite !bitdiv_testbit. rewrite Z.lxor_spec.
+    destruct (Z.testbit a (Z.of_nat i)), (Z.testbit (value rbits) (Z.of_nat i)); reflexivity.
+Qed.
+
+(* ------------------------------------------------------------------------------------- *)
+(** ** trailing_zeros *)
+
+Lemma mod_pow2_bit X l i : (i < l)%nat ->
+  ((X mod 2 ^ Z.of_nat l) / 2 ^ Z.of_nat i) mod 2 = (X / 2 ^ Z.of_nat i) mod 2.
+Proof.
+  intros Hi. rewrite !bitdiv_testbit. f_equal. apply Z.mod_pow2_bits_low. lia.
+Qed.
+
+Lemma trailing_zeros_length p L A l rbits rdivl : length (trailing_zeros p L A l rbits rdivl) = l.
+Proof. unfold trailing_zeros. rewrite map_length, seq_length. reflexivity. Qed.
+
+Lemma trailing_zeros_allbits p L A l rbits rdivl :
+  allbits rbits -> allbits (trailing_zeros p L A l rbits rdivl).
+Proof.
+  intros Hb. unfold trailing_zeros. apply Forall_forall. intros b Hin.
+  apply in_map_iff in Hin. destruct Hin as [i [<- _]].
+  pose proof (allbits_nth rbits i Hb) as Hr. cbv zeta.
+  destruct (_ =? 0); destruct Hr as [-> | ->]; unfold isbit; lia.
+Qed.
+
+(** bit i of the result is bit i of A whenever all lower bits of A are 0, i.e. the result is
+    correct up to and including the least significant 1 (all-zero if A mod 2^l = 0) *)
+Theorem trailing_zeros_correct p L A l rbits rdivl :
+  (l <= L)%nat -> length rbits = l -> allbits rbits ->
+  0 <= A + (2 ^ Z.of_nat L + rdivl * 2 ^ Z.of_nat l + value rbits) < p ->
+  forall i, (i < l)%nat -> A mod 2 ^ Z.of_nat i = 0 ->
+    nth i (trailing_zeros p L A l rbits rdivl) 0 = (A / 2 ^ Z.of_nat i) mod 2.
+Proof.
+  intros HlL Hlen Hb Hwrap i Hi Hlow. unfold trailing_zeros.
+  rewrite nth_map_seq by exact Hi. cbn [Nat.add]. cbv zeta.
+  rewrite from_bits_value, bit_at_spec.
+  rewrite (Z.mod_small _ p) by exact Hwrap.
+  rewrite mod_pow2_bit by exact Hi.
+  pose proof (pow2_pos i) as Pi.
+  set (r := value rbits) in *.
+  assert (Hri : nth i rbits 0 = (r / 2 ^ Z.of_nat i) mod 2).
+  { unfold r. rewrite nth_allbits_testbit by (try exact Hb; lia). symmetry. apply bitdiv_testbit. }
+  rewrite Hri.
+  (* A + 2^L + rdivl 2^l + r = 2^i * (A/2^i + 2^(L-i) + rdivl 2^(l-i)) + r *)
+  assert (EL : 2 ^ Z.of_nat L = 2 ^ Z.of_nat i * (2 * 2 ^ Z.of_nat (L - i - 1))).
+  { rewrite <- Z.pow_succ_r, <- Z.pow_add_r by lia. f_equal. lia. }
+  assert (El : 2 ^ Z.of_nat l = 2 ^ Z.of_nat i * (2 * 2 ^ Z.of_nat (l - i - 1))).
+  { rewrite <- Z.pow_succ_r, <- Z.pow_add_r by lia. f_equal. lia. }
+  assert (EA : A = 2 ^ Z.of_nat i * (A / 2 ^ Z.of_nat i)).
+  { pose proof (Z.div_mod A (2 ^ Z.of_nat i) ltac:(lia)). lia. }
+  set (A1 := A / 2 ^ Z.of_nat i) in *. clearbody A1.
+  replace (A + (2 ^ Z.of_nat L + rdivl * 2 ^ Z.of_nat l + r))
+    with (r + (A1 + 2 * 2 ^ Z.of_nat (L - i - 1) + rdivl * (2 * 2 ^ Z.of_nat (l - i - 1))) * 2 ^ Z.of_nat i)
+    by (rewrite EL, El, EA; ring).
+  rewrite Z.div_add by lia.
+  set (q := r / 2 ^ Z.of_nat i).
+  set (u := 2 ^ Z.of_nat (L - i - 1)). set (w := 2 ^ Z.of_nat (l - i - 1)).
+  replace (q + (A1 + 2 * u + rdivl * (2 * w))) with (q + A1 + (u + rdivl * w) * 2) by ring.
+  rewrite Z_mod_plus_full.
+  assert (Hq : q mod 2 = 0 \/ q mod 2 = 1) by lia.
+  assert (Ha : A1 mod 2 = 0 \/ A1 mod 2 = 1) by lia.
+  rewrite Z.add_mod by lia.
+  destruct Hq as [-> | ->], Ha as [-> | ->]; reflexivity.
+Qed.
+
+Corollary trailing_zeros_zero p L A l rbits rdivl :
+  (l <= L)%nat -> length rbits = l -> allbits rbits ->
+  0 <= A + (2 ^ Z.of_nat L + rdivl * 2 ^ Z.of_nat l + value rbits) < p ->
+  A mod 2 ^ Z.of_nat l = 0 ->
+  trailing_zeros p L A l rbits rdivl = repeat 0 l.
+Proof.
+  intros HlL Hlen Hb Hwrap H0.
+  apply nth_ext with (d := 0) (d' := 0).
+  - rewrite trailing_zeros_length, repeat_length. reflexivity.
+  - intros i Hi. rewrite trailing_zeros_length in Hi.
+    assert (El : 2 ^ Z.of_nat l = 2 ^ Z.of_nat i * (2 * 2 ^ Z.of_nat (l - i - 1))).
+    { rewrite <- Z.pow_succ_r, <- Z.pow_add_r by lia. f_equal. lia. }
+    pose proof (pow2_pos i) as Pi. pose proof (pow2_pos (l - i - 1)) as Pj.
+    rewrite El in H0. rewrite Z.rem_mul_r in H0 by lia.
+    pose proof (Z.mod_pos_bound A (2 ^ Z.of_nat i) Pi) as B1.
+    pose proof (Z.mod_pos_bound (A / 2 ^ Z.of_nat i) (2 * 2 ^ Z.of_nat (l - i - 1)) ltac:(lia)) as B2.
+    set (m1 := A mod 2 ^ Z.of_nat i) in *.
+    set (m2 := (A / 2 ^ Z.of_nat i) mod (2 * 2 ^ Z.of_nat (l - i - 1))) in *.
+    assert (M1 : m1 = 0) by nia.
+    assert (M2 : m2 = 0) by nia.
+    unfold m2 in M2. rewrite Z.rem_mul_r in M2 by lia.
+    rewrite trailing_zeros_correct by assumption.
+    rewrite nth_repeat.
+    pose proof (Z.mod_pos_bound (A / 2 ^ Z.of_nat i) 2 ltac:(lia)) as B3.
+    pose proof (Z.mod_pos_bound (A / 2 ^ Z.of_nat i / 2) (2 ^ Z.of_nat (l - i - 1)) Pj) as B4.
+    lia.
 Qed.
